@@ -153,43 +153,63 @@ func c09g2TrackerBookkeeping(c *eng.Ctx, clause string) {
 // (and later commands) skip verification.
 func c09g2WritesRecorded(c *eng.Ctx) {
 	for _, fn := range []string{"raft.(*FSM).applyBatchNonTxOps", "raft.(*FSM).applyBatchTxOps"} {
-		f := c.Fn(fn)
-		if f == nil {
+		root := c.Fn(fn)
+		if root == nil {
 			continue
+		}
+		// the function itself and the functions of the package it calls that write the bucket
+		// (a write loop extracted into a helper is held to the same rule)
+		fs := []*ssa.Function{root}
+		for _, cl := range eng.Calls(root, `^raft\.`) {
+			if g := cl.Common().StaticCallee(); g != nil && g != root && g.Blocks != nil && len(eng.Calls(g, `bbolt\.Bucket\)\.(Put|Delete)$`)) > 0 {
+				dup := false
+				for _, h := range fs {
+					dup = dup || h == g
+				}
+				if !dup {
+					fs = append(fs, g)
+				}
+			}
+		}
+		total := 0
+		for _, f := range fs {
+			total += len(eng.Calls(f, `bbolt\.Bucket\)\.(Put|Delete)$`))
 		}
 		c.Clause("R3", "C09.6")
-		writes := eng.Calls(f, `bbolt\.Bucket\)\.(Put|Delete)$`)
-		logs := eng.Calls(f, `fsmTxnCommitIndexApplicationState\)\.logWrite$`)
-		if !c.Floor(f, "bucket writes", len(writes), 2) {
+		if !c.Floor(root, "bucket writes", total, 2) {
 			continue
 		}
-		succ := eng.SuccessReturns(f, 0)
-		for _, w := range writes {
-			key := eng.ExprDeep(c09g2Unconv(w.Common().Args[1]))
-			var rec []ssa.Instruction
-			for _, l := range logs {
-				if eng.ExprDeep(c09g2Unconv(l.Common().Args[1])) == key {
-					rec = append(rec, l)
-				}
-			}
-			site := "applied write recorded under its key"
-			target := func(in ssa.Instruction) bool {
-				for _, o := range writes {
-					if in == ssa.Instruction(o) {
-						return true
+		for _, f := range fs {
+			writes := eng.Calls(f, `bbolt\.Bucket\)\.(Put|Delete)$`)
+			logs := eng.Calls(f, `fsmTxnCommitIndexApplicationState\)\.logWrite$`)
+			succ := eng.SuccessReturns(f, 0)
+			for _, w := range writes {
+				key := eng.ExprDeep(c09g2Unconv(w.Common().Args[1]))
+				var rec []ssa.Instruction
+				for _, l := range logs {
+					if eng.ExprDeep(c09g2Unconv(l.Common().Args[1])) == key {
+						rec = append(rec, l)
 					}
 				}
-				for _, r := range succ {
-					if in == r {
-						return true
+				site := "applied write recorded under its key"
+				target := func(in ssa.Instruction) bool {
+					for _, o := range writes {
+						if in == ssa.Instruction(o) {
+							return true
+						}
 					}
+					for _, r := range succ {
+						if in == r {
+							return true
+						}
+					}
+					return false
 				}
-				return false
-			}
-			if h := eng.Reach(eng.Query{Fn: f, StartAfter: w, Barriers: rec, Blocked: eng.CallFailEdges(w), Target: target}); h != nil {
-				c.Violation(f, site, w.Pos(), eng.CalleeName(w.Common())+" of "+key+" can be followed by the next write or a successful return without logWrite("+key+"): the write is missing from the record that lets transactions skip verification", h.Witness)
-			} else {
-				c.OK(f, site, w.Pos(), "logWrite("+key+") follows on every non-failing path")
+				if h := eng.Reach(eng.Query{Fn: f, StartAfter: w, Barriers: rec, Blocked: eng.CallFailEdges(w), Target: target}); h != nil {
+					c.Violation(f, site, w.Pos(), eng.CalleeName(w.Common())+" of "+key+" can be followed by the next write or a successful return without logWrite("+key+"): the write is missing from the record that lets transactions skip verification", h.Witness)
+				} else {
+					c.OK(f, site, w.Pos(), "logWrite("+key+") follows on every non-failing path")
+				}
 			}
 		}
 	}
@@ -221,7 +241,37 @@ func c09g2BucketWriters(c *eng.Ctx) {
 			sites = append(sites, eng.CallSite{Fn: f, Call: w})
 		}
 	}
-	c.CallerTable("bolt bucket writes in package raft", sites, table, 10)
+	// a function outside the table whose every caller (program-wide, function values included) is a
+	// tabled apply-path function is that function's helper: its writes happen on the apply path too
+	applyPath := map[string]bool{"raft.(*FSM).applyBatchNonTxOps": true, "raft.(*FSM).applyBatchTxOps": true}
+	var tabledSites []eng.CallSite
+	for _, st := range sites {
+		top := eng.TopFunc(st.Fn)
+		n := eng.FuncName(top)
+		if _, ok := table[n]; ok {
+			tabledSites = append(tabledSites, st)
+			continue
+		}
+		var callers []eng.CallSite
+		if m, miss := c.P.StaticCallee(n); len(miss) == 0 {
+			callers = append(c.P.FindCalls(m, nil), c.P.FuncValueUses(n)...)
+		}
+		inherits := len(callers) > 0
+		var who []string
+		for _, cs := range callers {
+			cn := eng.FuncName(eng.TopFunc(cs.Fn))
+			who = append(who, cn)
+			if !applyPath[cn] {
+				inherits = false
+			}
+		}
+		if inherits {
+			c.OK(top, "callers{bolt bucket writes in package raft}", st.Call.Pos(), "not tabled, but only called from "+strings.Join(uniqStr(who), ", ")+": a helper of the apply path")
+		} else {
+			tabledSites = append(tabledSites, st) // reported by the table below
+		}
+	}
+	c.CallerTable("bolt bucket writes in package raft", tabledSites, table, 10)
 	for fn, allowed := range map[string]map[string]string{
 		"raft.(*FSM).Put":    {},
 		"raft.(*FSM).Delete": {},
@@ -545,8 +595,9 @@ func c09g2RecordOperands(c *eng.Ctx) {
 		}
 	}
 	if f := c.Fn("raft.(*fsmTxnCommitIndexApplicationState).doVerifyRead"); f != nil {
-		for _, cl := range eng.Calls(f, `canFastWriteBypassRead$`) {
-			c.Prov(f, "key the record is asked about", cl, cl.Common().Args[1], `^field:op\.Key$`)
+		for _, cl := range eng.Calls(f, `canFastWriteBypassRead$|fsmTxnCommitIndexTracker\)\.hasModifiedEntry$`) {
+			a := cl.Common().Args
+			c.Prov(f, "key the record is asked about", cl, a[len(a)-1], `^field:op\.Key$`)
 		}
 		for _, cl := range eng.Calls(f, `bbolt\.Bucket\)\.Get$`) {
 			c.Prov(f, "key read back from storage", cl, cl.Common().Args[1], `^field:op\.Key$`)
@@ -559,10 +610,11 @@ func c09g2RecordOperands(c *eng.Ctx) {
 		}
 	}
 	if f := c.Fn("raft.(*fsmTxnCommitIndexApplicationState).doVerifyList"); f != nil {
-		qs := eng.Calls(f, `canFastWriteBypassList$`)
+		qs := eng.Calls(f, `canFastWriteBypassList$|fsmTxnCommitIndexTracker\)\.hasModifiedListEntry$`)
 		if c.Floor(f, "record asked about the listed prefix", len(qs), 1) {
 			for _, cl := range qs {
-				s := eng.ExprDeep(cl.Common().Args[1])
+				a := cl.Common().Args
+				s := eng.ExprDeep(a[len(a)-1])
 				site := "prefix the record is asked about"
 				if ok, _ := regexp.MatchString(`^raft\.parseListVerifyParams\(op\.Key\)#0\.Prefix$`, s); ok {
 					c.OK(f, site, cl.Pos(), s)
